@@ -110,6 +110,11 @@ DC_SPECS = {
                       fields=[_f('a', 'int'), _f('h', ['list', 'int'], init=False, exclude=True, compare=False, repr=False),
                               _f('c', 'str', ['value', "'c'"])],
                       init_false_setter=[['h', '[]']]),
+    # the same in front of another positional field, with tuple OUTPUT (round trips through the positional layout)
+    'dc_noinit_tuple': dict(name='DcNoinitTuple', opts={'in_format': ['tuple', 'struct'], 'out_format': 'tuple'},
+                            fields=[_f('start', 'fraction'), _f('label', 'str', init=False, exclude=True, compare=False, repr=False),
+                                    _f('stop', 'fraction'), _f('n', 'int', ['value', '2'])],
+                            init_false_setter=[['label', "'lbl'"]]),
     # allow_extra
     'dc_extra': dict(name='DcExtra', opts={'allow_extra': True}, fields=[_f('a', 'int'), _f('b', 'bool', ['value', 'True'])]),
     # nested dataclass field
